@@ -45,16 +45,26 @@ class Fork:
 
     def __next__(self):
         if self.next is None:
-            if self.head.value is None:
+            if self._state == 0 and self.head.value is None:
                 with self.instream_lock:
                     if self.head.value is None:
+                        if self.head.exc is not None:
+                            # `instream` failed on its very first element
+                            # in another fork.
+                            raise self.head.exc
                         # Get the very first data element out of `instream`
                         # across all forks.
                         # If this raises `StopIteration`, meaning `instream`
                         # is empty, the exception will be propagated, halting
                         # this fork. All the other forks will also get to this
                         # point and exit the same way.
-                        x = next(self.instream)
+                        try:
+                            x = next(self.instream)
+                        except StopIteration:
+                            raise
+                        except BaseException as e:
+                            self.head.exc = e
+                            raise
                         box = TeeX(x)
                         self.buffer.put(box)
                         self.head.value = box
@@ -67,6 +77,10 @@ class Fork:
                 self.next = self.head.value
                 return self.__next__()
             else:
+                if self.head.exc is not None:
+                    # `instream` did not end by exhaustion but by this exception;
+                    # every fork ends the same way.
+                    raise self.head.exc
                 raise StopIteration
         else:
             while self.next.next is None:
@@ -78,20 +92,27 @@ class Fork:
                 # the final data element in the buffer.
                 locked = self.instream_lock.acquire(timeout=0.1)
                 if locked:
-                    if self.next.next is None:
-                        try:
-                            x = next(self.instream)
-                        except StopIteration:
-                            # `instream` is exhausted.
-                            # `self.next.next` remains `None`.
-                            # The next call to `__next__` will land
-                            # in the first branch and raise `StopIteration`.
-                            pass
-                        else:
-                            box = TeeX(x)
-                            self.next.next = box  # IMPORTANT: this line goes before the next to avoid race.
-                            self.buffer.put(box)
-                    self.instream_lock.release()
+                    try:
+                        if self.next.next is None and self.head.exc is None:
+                            try:
+                                x = next(self.instream)
+                            except StopIteration:
+                                # `instream` is exhausted.
+                                # `self.next.next` remains `None`.
+                                # The next call to `__next__` will land
+                                # in the first branch and raise `StopIteration`.
+                                pass
+                            except BaseException as e:
+                                # `instream` failed. Remember the exception for all
+                                # the forks; each raises it after the elements
+                                # obtained so far.
+                                self.head.exc = e
+                            else:
+                                box = TeeX(x)
+                                self.next.next = box  # IMPORTANT: this line goes before the next to avoid race.
+                                self.buffer.put(box)
+                    finally:
+                        self.instream_lock.release()
                     break
 
             # Check whether the buffer head should be popped:
@@ -192,6 +213,8 @@ def tee(
     head.value = None
     # `head` holds the very first element of `instream`.
     # Once assigned, `head` will not change.
+    head.exc = None
+    # The exception, if any, that `instream` raised instead of ending by exhaustion.
 
     forks = tuple(Fork(instream, n, buffer, head, instream_lock, i) for i in range(n))
     return tuple(Stream(f) for f in forks)
